@@ -51,7 +51,7 @@ prop("C20",
 prop("C19",
      [r_hdrt.rule_catchall, r_hdrt.rule_total, r_hdrt.rule_steer_lookup, r_hdrt.rule_no_state, r_hdrt.rule_flag_forward,
       r_sec.rule_end_test, r_sec.rule_scan, r_sec.rule_line_model, r_hdrt.rule_parser_stateless, r_sec.rule_title_pred,
-      r_hdrt.rule_generator_resume],
+      r_hdrt.rule_generator_resume, r_hdrt.rule_mnemonic_tests, r_data.rule_sample_window],
      "Error-discipline analysis of the header loop (reader.parse_header_items_section): the call that parses a raw "
      "line is inside a try with a catch-all handler; by control dependence the handler raises only when "
      "ignore_header_errors is false, then raises LASHeaderError whose message derives (provenance) from the line, "
@@ -225,7 +225,7 @@ prop("C07",
      [r_data.rule_wrap_count, r_data.rule_tokenizer, r_sec.rule_line_normalise, r_data.rule_counter, r_data.rule_reshape,
       r_data.rule_split, r_sec.rule_reseek, r_sec.rule_end_test, r_si.rule_compare, r_sec.rule_content_only_effects,
       r_data.rule_orient, r_sec.rule_case, r_sec.rule_steer, r_data.rule_engine_select, r_hdrt.rule_every_line,
-      r_data.rule_null_table, r_data.rule_tokens_kept, r_num.rule_curve_raw, r_data.rule_subs_agree],
+      r_data.rule_null_table, r_data.rule_tokens_kept, r_num.rule_curve_raw, r_data.rule_subs_agree, r_data.rule_sample_window, r_data.rule_splitter_guard],
      "Column binding analysis: under the assumption WRAP == YES with declared curves, an explicit-state search of "
      "LASFile.read shows that the n_columns argument of the reference engine is never the per-line count sniffed by "
      "inspect_data_section, and all tests on the WRAP value fold to the same predicate over 9 probe values "
@@ -265,7 +265,7 @@ prop("C09",
      [r_data.rule_tokenizer, r_data.rule_trim, r_sec.rule_title_pred, r_sec.rule_end_test, r_sec.rule_line_normalise,
       r_sec.rule_reseek, r_data.rule_wrap_count, r_sec.rule_convention, r_data.rule_orient, r_sec.rule_content_only_effects,
       r_data.rule_read_subs, r_gr.rule_grammar, r_data.rule_engine_select, r_data.rule_tokens_kept, r_data.rule_split,
-      r_data.rule_subs_source, r_data.rule_subs_agree, r_sec.rule_whitespace_sets],
+      r_data.rule_subs_source, r_data.rule_subs_agree, r_sec.rule_whitespace_sets, r_data.rule_sample_window, r_data.rule_splitter_guard],
      "Presentation-invariance clauses: the sniffer tokenises with the reader's DLM splitter (DATA.TOKENIZER); every "
      "splitter of the factory yields whitespace-free tokens - decided on the regex AST as a character set, or by strip() "
      "of each field - and comma splitting is positional (DATA.TRIM, DATA.SPLIT; COMMA and TAB trimming are recorded known "
@@ -285,7 +285,7 @@ prop("C02",
      [r_sec.rule_convention, r_sec.rule_end_test, r_sec.rule_line_normalise, r_data.rule_orient, r_data.rule_reshape,
       r_sec.rule_reseek, r_sec.rule_scan, r_data.rule_null_flat, r_data.rule_split, r_sec.rule_content_only_effects,
       r_data.rule_read_subs, r_data.rule_wrap_count, r_data.rule_space_tokens, r_data.rule_fast_tokens, r_data.rule_null_table,
-      r_data.rule_null_guard, r_data.rule_tokens_kept, r_sec.rule_line_model, r_data.rule_engine_args_agree],
+      r_data.rule_null_guard, r_data.rule_tokens_kept, r_sec.rule_line_model, r_data.rule_engine_args_agree, r_sec.rule_steer, r_data.rule_splitter_guard],
      "Engine-agreement clauses: both engines get the same line window - one interval convention for every section end and "
      "the matching affine skip_header = first+1 / max_rows = last-first after seek(0) in the fast engine (SEC.CONVENTION, "
      "SEC.SCAN); the reference engine and the sniffer count every physical line once, test for the section end on every "
@@ -576,18 +576,34 @@ ALSO6 = {
 }
 ALSO7 = {
     "C01": "Round 7: DATA.ENGINE-SELECT decided by exploration when the selection is not an if-chain, and its flag-type clause (the WRAP "
-           "flag keeps one type between the place that derives it and the places that test it).",
-    "C09": "Round 7: LINE.WS-SET (a hand-written set of white-space characters used to strip or test lines contains what str.strip() removes).",
+           "flag keeps one type between the place that derives it and the places that test it). "
+           "NULL.WRITE formatter slots.",
+    "C02": "Round 7: SEC.STEER (the delimiter, WRAP and NULL that steer both engines come from ~Version / ~Well only: an item called DLM "
+           "in another section must not make the two engines split the same lines differently). "
+           "DATA.SPLIT empty-quoted (an empty quoted cell is one item of the SPACE/TAB item pattern). "
+           "DATA.SPLIT-GUARD (no call of the line splitter is reachable with an empty line: the COMMA splitter returns an item for it).",
+    "C09": "Round 7: LINE.WS-SET (a hand-written set of white-space characters used to strip or test lines contains what str.strip() removes). "
+           "DATA.SPLIT empty-quoted. "
+           "DATA.SPLIT-GUARD; DATA.SAMPLE-REL.",
     "C10": "Round 7: LINE.WS-SET; PU.CHANNEL bom-open (the handle that is read is opened with the encoding the BOM test chose).",
-    "C12": "Round 7: DATA.ENGINE-SELECT flag-type; WR.DATA-FORMAT separator clause (a cell is padded to the field width plus the spacer).",
+    "C12": "Round 7: DATA.ENGINE-SELECT flag-type; WR.DATA-FORMAT separator clause (a cell is padded to the field width plus the spacer). "
+           "NULL.WRITE formatter slots.",
     "C13": "Round 7: SI.TRANSFORMS-FIRST (mnemonic transforms are fixed on the section before the first item is appended).",
     "C14": "Round 7: LF.NO-MODULE-STATE (the curve editors keep no state in module- or class-level containers).",
     "C15": "Round 7: SI.TRANSFORMS-FIRST; SI.SETATTR-EXCLUSIVE (__setattr__ either replaces an item or sets an attribute, never both).",
     "C16": "Round 7: the unit variable is not re-bound between the stores of WR.REFRESH; ORD.TABLE (the 1.x order decoder; the refreshed "
-           "STRT/STOP/STEP lines are laid out through it).",
+           "STRT/STOP/STEP lines are laid out through it). "
+           "WR.REFRESH curve-without-unit.",
     "C17": "Round 7: PK.MEMO (__deepcopy__ hands its memo to every nested deepcopy).",
     "C18": "Round 7: EX.CSV (the csv.writer receives the caller's **kwargs).",
     "C20": "Round 7: IO.CALLER-OWNED also for `with <caller's object>:` (a with-statement closes what it is given).",
+    "C05": "Round 7: SEC.STEER reset clause (no steering variable is set back to a constant while a section with another title letter is processed).",
+    "C06": "Round 7: SEC.STEER reset clause; NULL.WRITE formatter slots (callables stored in one slot agree on NaN handling: no bare `<format>.__mod__` next to NaN-aware formatters).",
+    "C07": "Round 7: SEC.STEER reset clause; DATA.SPLIT empty-quoted. "
+           "DATA.SPLIT-GUARD; DATA.SAMPLE-REL (the sniffer's sample limit is tested on a count relative to the section start).",
+    "C11": "Round 7: WR.REFRESH curve-without-unit (an index curve whose unit is empty receives the common unit: every test guarding the store lets that case through).",
+    "C19": "Round 7: HDR.MNEM-TEST (a regular expression that identifies a mnemonic must match the whole of it: a bare word list applied with match() is a prefix test). "
+           "DATA.SAMPLE-REL (junk lines in front of the data section must not change how many of its lines are sampled).",
 }
 for _pid, _txt in ALSO.items():
     PROPS[_pid]["explanation"] += " " + _txt
